@@ -20,11 +20,16 @@ static std::string squeeze(const std::string& s) {
 static EP make_mon0(trompeloeil::deathwatched<Plain>* w, trompeloeil::sequence**, unsigned& line) { line = __LINE__; return NAMED_REQUIRE_DESTRUCTION(*w); }
 static EP make_mon1(trompeloeil::deathwatched<Plain>* w, trompeloeil::sequence** s, unsigned& line) { auto& s0 = *s[0]; line = __LINE__; return NAMED_REQUIRE_DESTRUCTION(*w).IN_SEQUENCE(s0); }
 static EP make_mon2(trompeloeil::deathwatched<Plain>* w, trompeloeil::sequence** s, unsigned& line) { auto& s0 = *s[0]; auto& s1 = *s[1]; line = __LINE__; return NAMED_REQUIRE_DESTRUCTION(*w).IN_SEQUENCE(s0, s1); }
-static unsigned g_mon_line[3] = {0, 0, 0};
-const MonShape& mon_shape(int nseq) {
-  static MonShape t[3];
-  t[nseq] = MonShape{__FILE__, g_mon_line[nseq], "NAMED_REQUIRE_DESTRUCTION(*w)", "destructor for *w"};
-  return t[nseq];
+// scoped forms: the requirement is a local of this frame and lives as long as the continuation runs
+static void smon0(trompeloeil::deathwatched<Plain>* w, trompeloeil::sequence**, unsigned& line, std::function<void()>& k) { line = __LINE__; REQUIRE_DESTRUCTION(*w); k(); }
+static void smon1(trompeloeil::deathwatched<Plain>* w, trompeloeil::sequence** s, unsigned& line, std::function<void()>& k) { auto& s0 = *s[0]; line = __LINE__; REQUIRE_DESTRUCTION(*w).IN_SEQUENCE(s0); k(); }
+static void smon2(trompeloeil::deathwatched<Plain>* w, trompeloeil::sequence** s, unsigned& line, std::function<void()>& k) { auto& s0 = *s[0]; auto& s1 = *s[1]; line = __LINE__; REQUIRE_DESTRUCTION(*w).IN_SEQUENCE(s0, s1); k(); }
+static unsigned g_mon_line[6] = {0, 0, 0, 0, 0, 0};
+const MonShape& mon_shape(int nseq, bool scoped) {
+  static MonShape t[6];
+  int k = nseq + (scoped ? 3 : 0);
+  t[k] = MonShape{__FILE__, g_mon_line[k], scoped ? "REQUIRE_DESTRUCTION(*w)" : "NAMED_REQUIRE_DESTRUCTION(*w)", "destructor for *w"};
+  return t[k];
 }
 
 // ---------------- report oracles ----------------
@@ -93,7 +98,7 @@ bool ExecImpl::report_matches(const PRep& p, const XRep& x, std::string& why) {
     case RK_SEQMISMATCH: {
       if (x.mon >= 0) {
         const MMon& m = M.mons[x.mon];
-        const MonShape& ms = mon_shape(m.nseq);
+        const MonShape& ms = mon_shape(m.nseq, m.scoped);
         if (!loc_is(ms.file, ms.line) || p.text != ms.call_name) { why = "names '" + p.text + "'"; return false; }
         if (x.seqidx >= 0 && p.seqname != "s" + std::to_string(x.seqidx)) { why = "names sequence \"" + p.seqname + "\""; return false; }
         return true;
@@ -133,7 +138,7 @@ bool ExecImpl::report_matches(const PRep& p, const XRep& x, std::string& why) {
     }
     case RK_STILLALIVE: {
       const MMon& m = M.mons[x.mon];
-      const MonShape& ms = mon_shape(m.nseq);
+      const MonShape& ms = mon_shape(m.nseq, m.scoped);
       if (!loc_is(ms.file, ms.line) || p.objname != "*w") { why = "location/object name differ"; return false; }
       return true;
     }
@@ -143,7 +148,7 @@ bool ExecImpl::report_matches(const PRep& p, const XRep& x, std::string& why) {
     case RK_SEQNOTMET: {
       if (!loc_is("", 0)) { why = "unexpected location"; return false; }
       auto key = [&](const MEntry& en) {
-        if (en.is_mon) { const MonShape& ms = mon_shape(M.mons[en.id].nseq); return std::string(ms.text) + "@" + ms.file + ":" + std::to_string(ms.line); }
+        if (en.is_mon) { const MonShape& ms = mon_shape(M.mons[en.id].nseq, M.mons[en.id].scoped); return std::string(ms.text) + "@" + ms.file + ":" + std::to_string(ms.line); }
         const MExp& e = M.exps[en.id];
         return std::string(e.sd().text) + "@" + exp_file(e) + ":" + std::to_string(e.line);
       };
@@ -264,7 +269,7 @@ void ExecImpl::op_new_watched(const Op& op) {
   if (!shadow) rwatched.push_back(new trompeloeil::deathwatched<Plain>(op.a[1]));
 }
 
-void ExecImpl::op_req_destruction(const Op& op) {
+void ExecImpl::op_req_destruction(const Op& op, std::function<void()>* scope_body) {
   int wid = pick(M.live_watched(), op.a[0]);
   if (wid < 0 || static_cast<int>(M.live_mons().size()) >= MAX_MONS) return;
   if (!M.watched[wid].monitors.empty()) {
@@ -285,10 +290,47 @@ void ExecImpl::op_req_destruction(const Op& op) {
     m.in_seq[i] = true;
     M.seqs[m.seq[i]].list.push_back(MEntry{true, m.id});
   }
+  const bool scoped = (op.a[8] & 2) && (shadow ? depth == 1 : scope_body != nullptr);
+  m.scoped = scoped;
   M.mons.push_back(m);
   M.watched[wid].monitors.push_back(m.id);
   nontriv("C13"); if (nseq) nontriv("C05");
-  if (shadow) return;
+  if (shadow) { if (scoped) scope_stack.push_back({true, m.id}); return; }
+  if (scoped) {
+    const int id = m.id;
+    trompeloeil::sequence* sq2[2] = {nullptr, nullptr};
+    for (int i = 0; i < nseq; ++i) sq2[i] = rseqs[static_cast<size_t>(m.seq[i])].get();
+    rmons.resize(M.mons.size());
+    Obs oc, od;
+    std::vector<XRep> want_release;
+    bool entered = false, unwinding = false;
+    std::function<void()> inner = [&]() {
+      entered = true;
+      obs_stack.pop_back();
+      std::vector<XRep> none;
+      check_reports(oc, none, false, "require_destruction (scoped form)", "C13,C15");
+      if (!stop) { observe_flags(); state_hashes.push_back(M.hash()); }
+      bool aborted = false;
+      if (!stop) { try { (*scope_body)(); } catch (scope_abort const&) { aborted = true; } }
+      if (!stop) want_release = release_mon_model(id);
+      obs_stack.push_back(&od);
+      if (aborted) { unwinding = true; throw scope_abort{}; }
+    };
+    obs_stack.push_back(&oc);
+    bool threw = false;
+    try {
+      auto* w = rwatched[static_cast<size_t>(wid)];
+      if (nseq == 0) smon0(w, sq2, g_mon_line[3], inner); else if (nseq == 1) smon1(w, sq2, g_mon_line[4], inner); else smon2(w, sq2, g_mon_line[5], inner);
+    } catch (scope_abort const&) {}
+    catch (...) { threw = true; }
+    obs_stack.pop_back();
+    if (stop) { if (unwinding) throw scope_abort{}; return; }
+    if (threw || !entered) { fail("C13", "require_destruction_threw", "REQUIRE_DESTRUCTION threw"); return; }
+    check_reports(od, want_release, false, unwinding ? "end of scope of a destruction requirement (left by an exception)" : "end of scope of a destruction requirement", "C13,C15");
+    if (!stop && !unwinding) { observe_flags(); state_hashes.push_back(M.hash()); }
+    if (unwinding) throw scope_abort{};
+    return;
+  }
   Obs o; obs_stack.push_back(&o);
   trompeloeil::sequence* sq[2] = {nullptr, nullptr};
   for (int i = 0; i < nseq; ++i) sq[i] = rseqs[static_cast<size_t>(m.seq[i])].get();
@@ -388,7 +430,7 @@ void ExecImpl::op_assign_watched(const Op& op) {
   check_reports(o, none, false, "assignment to a watched object", "C13");
 }
 
-void ExecImpl::release_mon(int id) {
+std::vector<XRep> ExecImpl::release_mon_model(int id) {
   MMon& m = M.mons[id];
   std::vector<XRep> want;
   if (!m.died) {
@@ -402,6 +444,11 @@ void ExecImpl::release_mon(int id) {
   for (int i = 0; i < m.nseq; ++i) if (m.seq[i] >= 0 && m.in_seq[i]) { M.remove_entry(m.seq[i], true, id); m.in_seq[i] = false; }
   m.alive = false;
   nontriv("C13");
+  return want;
+}
+
+void ExecImpl::release_mon(int id) {
+  std::vector<XRep> want = release_mon_model(id);
   if (shadow) return;
   Obs o; obs_stack.push_back(&o);
   rmons[static_cast<size_t>(id)].reset();
@@ -411,7 +458,7 @@ void ExecImpl::release_mon(int id) {
 
 void ExecImpl::op_release_mon(const Op& op) {
   int id = pick(M.live_mons(), op.a[0]);
-  if (id < 0) return;
+  if (id < 0 || M.mons[static_cast<size_t>(id)].scoped) return;   // a scoped requirement ends with its scope only
   release_mon(id);
 }
 
